@@ -262,7 +262,17 @@ Definition spec_unary (o : oracle) (u : uop) (x arg : kind) : action :=
       | UFor | UToTuple | UReversed =>
           let lib := match u with UFor => false | _ => true end in
           let plain := match x with VMap [] => true | _ => false end in
-          if implements k_next x then
+          (* guide, "@access and @access_assign": the @access override decides how `.` access
+             behaves -- x.to_tuple / x.reversed are `.` accesses like any other; what it returns is
+             then called, and none of the functions' values is callable *)
+          if lib && is_koto_map x && implements k_access x then
+            (fst (ask o L k_access x WL [WKey]),
+             match snd (ask o L k_access x WL [WKey]) with
+             | FUnimpl => OErr EThrownUnimpl
+             | FErr ek => OErr (EUser ek)
+             | _ => OErr EType
+             end)
+          else if implements k_next x then
             (* "it will first check the metamap for an implementation of @next, before looking
                for @iterator"; "will only look for @next_back if @next is implemented" *)
             match u with
